@@ -119,6 +119,15 @@ def run(chk):
             for m in (2, 4, 16):
                 cells.append(dict(kind="pmh2", m=m, groups=groups, shape=name + "+reuse", oracle=jp_float(wa, wb), reuse=True,
                                   trials=trials_for(4 if m < 16 else 8, len(wa), quick)))
+    # the crate's identity hasher (identifiers are "already hashed" values): pairs of identifiers that differ by two
+    # swapped bytes must still behave like two independent items
+    for name, groups in shapes(quick):
+        if name in ("equal-overlap", "unequal-1:5", "10:1:1", "nested"):
+            wa, wb = expand(groups)
+            for kind in ("pmh2_no", "pmh3_no", "pmh3a_no"):
+                for m in (4, 16):
+                    cells.append(dict(kind=kind, m=m, groups=groups, shape=name + "+idhash", oracle=jp_float(wa, wb), ids="paired",
+                                      trials=trials_for(4 if m < 16 else 8, len(wa), quick)))
     res_ = freqfam.run_pairs(chk, cells, "pairs")
     freqfam.judge_pairs(chk, cells, res_, "pairs")
     chk.cov["pair_cells"] = len(cells)
